@@ -336,6 +336,8 @@ type options struct {
 	wall    time.Duration
 	replay  string
 	sources string
+	minBudget  time.Duration // minimisation budget per violation class (0 = by tier)
+	maxClasses int           // violation classes minimised and published per run
 }
 
 func main() {
@@ -351,9 +353,11 @@ func main() {
 	keep := fs.Bool("keep-scratch", false, "do not delete the scratch directory")
 	sources := fs.String("sources", "corpus,gen", "workload sources")
 	seeds := fs.Int("seeds", 40, "selftest: number of seeds")
+	minBudget := fs.Duration("min-budget", 0, "minimisation budget per violation class (default by tier)")
+	maxClasses := fs.Int("max-classes", 5, "at most this many violation classes are minimised and published")
 	fs.Parse(os.Args[2:])
 	keepScratch = *keep
-	o := options{prop: prop, tier: *tier, workers: *workers, wall: *wall, replay: *replay, sources: *sources}
+	o := options{prop: prop, tier: *tier, workers: *workers, wall: *wall, replay: *replay, sources: *sources, minBudget: *minBudget, maxClasses: *maxClasses}
 	if o.tier == "" {
 		o.tier = os.Getenv("VERIF_TIER")
 	}
